@@ -124,6 +124,31 @@ pub fn run(ctx: &Ctx) -> Result<()> {
 		col.out.line(&format!("json.pstr {} => {}", cps(s), txt));
 		if r.is_err() { col.violation("parse-panic", &format!("json.pstr {}", cps(s)), &format!("json.pstr {}", cps(s)), "parse_quoted_json_string panicked"); }
 	}
+	// (2b) long texts: every kind of escape at every offset around the reader's buffer borders (4096, 8192 bytes), through both the
+	//      buffered reader and the in-memory iterator, inside a string, a document and a TileJSON
+	{
+		// (escaped surrogate pairs are not among them: the parser rejects them, and stringify never writes them)
+		let escapes: [(&str, &str); 7] = [("\\u001f", "\u{1f}"), ("\\u00e9", "\u{e9}"), ("\u{1f600}", "\u{1f600}"), ("\\n", "\n"), ("\\\\", "\\"), ("\\\"", "\""), ("\u{e9}", "\u{e9}")];
+		let pads: Vec<usize> = (4076..=4100).chain(8170..=8196).chain([12280usize, 12286, 12287, 12288]).collect();
+		for (k, &pad) in pads.iter().enumerate() {
+			for (e, (esc, ch)) in escapes.iter().enumerate() {
+				if !ctx.thorough && (k + e) % 2 == 1 && !(4090..=4097).contains(&pad) { continue; }
+				let text = format!("\"{}{esc}tail{esc}\"", "a".repeat(pad));
+				let want = format!("{}{ch}tail{ch}", "a".repeat(pad));
+				col.spec_cases += 1;
+				let r1 = guarded(|| { let mut it = ByteIterator::from_reader(Cursor::new(text.as_bytes().to_vec()), true); parse_quoted_json_string(&mut it) });
+				if !matches!(&r1, Ok(Ok(v)) if *v == want) { col.violation("long-string", &format!("{pad} x 'a' + {esc} + tail + {esc} (buffered reader)"), "", &format!("got {:?}", r1.as_ref().map(|r| r.as_ref().map(|v| { let t: String = v.chars().skip(pad.saturating_sub(2)).collect(); t }).map_err(|e| e.to_string())))); }
+				let r2 = guarded(|| parse_json_str(&format!("{{\"k\":{text},\"z\":[1,{text}]}}")));
+				let ok2 = match &r2 { Ok(Ok(v)) => v.stringify() == JsonValue::parse_str(&format!("{{\"k\":{},\"z\":[1,{}]}}", JsonValue::String(want.clone()).stringify(), JsonValue::String(want.clone()).stringify())).map(|x| x.stringify()).unwrap_or_default() && v.stringify().contains("tail"), _ => false };
+				// independent of the parser under test: the strict parser reads the same text
+				let ok3 = matches!(strict_parse(&text), Some(J::Str(b)) if b == want);
+				if !ok2 || !ok3 { col.violation("long-document", &format!("document with {pad} x 'a' + {esc} + tail + {esc}"), "", &format!("parse_json_str: {}; strict parser agrees with the expectation: {ok3}", if ok2 { "ok" } else { "differs" })); }
+				if let Ok(Ok(JsonValue::Object(o))) = &r2 { if !matches!(o.get("k"), Some(JsonValue::String(v)) if *v == want) { col.violation("long-document", &format!("document with {pad} x 'a' + {esc}"), "", "member k differs from what was written"); } }
+				let tj = versatiles_core::tilejson::TileJSON::try_from(format!("{{\"attribution\":{text},\"name\":\"n\"}}").as_str());
+				if !matches!(&tj, Ok(t) if t.get_str("attribution") == Some(want.as_str()) && t.get_str("name") == Some("n")) { col.violation("long-tilejson", &format!("TileJSON with an attribution of {pad} x 'a' + {esc} + tail"), "", "attribution or name differs from what was written"); }
+			}
+		}
+	}
 	// (3) values
 	for _ in 0..n / 2 {
 		let v = gen_value(&mut rng, 3);
